@@ -5,8 +5,6 @@ From Coq Require Import List Arith NArith Bool Lia.
 From GV Require Import Common.Outcome Base.Grammar LR.Automaton C08.Model C08.Spec C08.Forest C08.Loops.
 Import ListNotations.
 
-Definition strip_span (c : call) : call := mkCall (c_pidx c) (c_ridx c) (c_args c) (0, 0)%nat (c_param c).
-
 Section Lockstep.
 Variable SP1 SP2 : Type.
 Variable sh1 : lexeme -> SP1.
@@ -33,7 +31,7 @@ Proof.
   intros (Hp & Ha & Hl) H1 H2. apply reduce_lr_inv in H1. apply reduce_lr_inv in H2.
   destruct H1 as (pi1 & pr1 & st1 & sr1 & _ & _ & Hpi1 & _ & Hpr1 & Hg1 & _ & _ & E1).
   destruct H2 as (pi2 & pr2 & st2 & sr2 & _ & _ & Hpi2 & _ & Hpr2 & Hg2 & _ & _ & E2).
-  assert (Hpi : pi1 = pi2) by (rewrite Hpi1, Hpi2, Hp; reflexivity). subst pi2.
+  assert (Hpi : pi2 = pi1) by (rewrite Hpi1, Hpi2, Hp; reflexivity). clear Hpi1 Hpi2. subst pi2.
   rewrite Hp in Hpr1. rewrite Hpr1 in Hpr2. injection Hpr2 as Hpr. subst pr2.
   rewrite Hg1 in Hg2. injection Hg2 as Hst. subst st2.
   assert (Hlen : length (log s1) = length (log s2)).
